@@ -210,35 +210,44 @@ def run_item(item, rec):
 
                     def harness(ctx, cfg=cfg, ssa=ssa, ones=ones, variant=variant, case=case, use_sym_order=use_sym_order, build=build, warm=warm):
                         size = {c: (1 if c in ones else symx.sym_int("d_" + c, 2)) for c in labels}
-                        tree = make_tree(inputs, output, size, ssa, cfg, variant, build, warm)
-                        st = tree.contract_stats()
-                        tf, tw, ms = tree.total_flops(), tree.total_write(), tree.max_size()
-                        order = SymOrder() if use_sym_order else None
-                        steps = list(tree.traverse(order))
-                        # the order must be admissible: every internal node once, children first
-                        done = {frozenset([i]) for i in range(n)}
-                        ok_order = len(steps) == n - 1
-                        for p, l, r in steps:
-                            ok_order = ok_order and l in done and r in done and p == l | r and p not in done
-                            done.add(p)
-                        peak = tree.peak_size(order)
-                        if tree._track_size:
-                            symx.keys_guard(tree._sizes._c)
-                        sliced = [ix for ix, m in cfg if m == "s"]
-                        proj = [ix for ix, m in cfg if m == "p"]
-                        ref = costs.tree_costs(inputs, output, size, steps, sliced, proj)
-                        bads = []
-                        if not ok_order:
-                            bads.append(z3.BoolVal(True))
-                        for got, want in ((st["flops"], ref["flops"]), (st["write"], ref["write"]), (st["size"], ref["size"]),
-                                          (tf, ref["flops"]), (tw, ref["write"]), (ms, ref["size"]), (peak, ref["peak"]),
-                                          (tree.multiplicity, ref["mult"])):
-                            bads.append(term(got) != term(want))
-                        for (p, f, s, inv, lp) in ref["per_step"]:
-                            bads.append(term(tree.get_flops(p)) != term(f))
-                            bads.append(term(tree.get_size(p)) != term(s))
-                            if sorted(tree.get_legs(p)) != lp or sorted(tree.get_involved(p)) != inv:
+                        order = None
+
+                        def viol0(m):
+                            d = dict(case=case, size={c: symx.eval_model(m, size[c]) for c in labels}, signature=["C03a", list(inputs), output, case["cfg"]])
+                            if isinstance(order, SymOrder):
+                                d["order_keys"] = [[sorted(nd), symx.eval_model(m, k)] for nd, k in order.keys.items()]
+                            return d
+
+                        with rec.guarded(ctx, "stats==definition", viol0):
+                            tree = make_tree(inputs, output, size, ssa, cfg, variant, build, warm)
+                            st = tree.contract_stats()
+                            tf, tw, ms = tree.total_flops(), tree.total_write(), tree.max_size()
+                            order = SymOrder() if use_sym_order else None
+                            steps = list(tree.traverse(order))
+                            # the order must be admissible: every internal node once, children first
+                            done = {frozenset([i]) for i in range(n)}
+                            ok_order = len(steps) == n - 1
+                            for p, l, r in steps:
+                                ok_order = ok_order and l in done and r in done and p == l | r and p not in done
+                                done.add(p)
+                            peak = tree.peak_size(order)
+                            if tree._track_size:
+                                symx.keys_guard(tree._sizes._c)
+                            sliced = [ix for ix, m in cfg if m == "s"]
+                            proj = [ix for ix, m in cfg if m == "p"]
+                            ref = costs.tree_costs(inputs, output, size, steps, sliced, proj)
+                            bads = []
+                            if not ok_order:
                                 bads.append(z3.BoolVal(True))
+                            for got, want in ((st["flops"], ref["flops"]), (st["write"], ref["write"]), (st["size"], ref["size"]),
+                                              (tf, ref["flops"]), (tw, ref["write"]), (ms, ref["size"]), (peak, ref["peak"]),
+                                              (tree.multiplicity, ref["mult"])):
+                                bads.append(term(got) != term(want))
+                            for (p, f, s, inv, lp) in ref["per_step"]:
+                                bads.append(term(tree.get_flops(p)) != term(f))
+                                bads.append(term(tree.get_size(p)) != term(s))
+                                if sorted(tree.get_legs(p)) != lp or sorted(tree.get_involved(p)) != inv:
+                                    bads.append(z3.BoolVal(True))
                         bad = z3.Or(bads)
 
                         def viol(m):
@@ -255,11 +264,12 @@ def run_item(item, rec):
                         rcd = Recorder()
                         arrs = [ShapeArr([size[c] for c in t]) for t in inputs]
                         pe = bool(variant)
-                        if tree.sliced_inds:
-                            sl = tree.slice_arrays(arrs, 0)
-                        else:
-                            sl = arrs
-                        out = tree.contract_core(sl, order=order, prefer_einsum=pe, implementation=(rcd.einsum, rcd.tensordot))
+                        with rec.guarded(ctx, "executed shapes==reported", viol0):
+                            if tree.sliced_inds:
+                                sl = tree.slice_arrays(arrs, 0)
+                            else:
+                                sl = arrs
+                            out = tree.contract_core(sl, order=order, prefer_einsum=pe, implementation=(rcd.einsum, rcd.tensordot))
                         bads = list(rcd.mismatch)
                         pair_calls = [c for c in rcd.calls if len(c["in_shapes"]) == 2]
                         if len(pair_calls) != n - 1:
